@@ -36,6 +36,21 @@ def _strip_comments(src):
     return src
 
 
+def _closure(modules):
+    """source files of the model plus everything (inside this library) the given modules import"""
+    todo = ["ForsysModel.Model"] + list(modules)
+    seen = {}
+    while todo:
+        mod = todo.pop()
+        path = os.path.join(LEAN, *mod.split(".")) + ".lean"
+        if mod in seen or not os.path.exists(path):
+            continue
+        seen[mod] = path
+        for m in re.finditer(r"^import\s+(ForsysModel[\w.]*)", open(path).read(), flags=re.M):
+            todo.append(m.group(1))
+    return set(seen.values())
+
+
 def lake(args, timeout=3000):
     """run lake under an exclusive lock (several checks may run in parallel)"""
     os.makedirs(os.path.join(LEAN, ".lake"), exist_ok=True)
@@ -78,6 +93,21 @@ class Check:
         self.replaying = replay
         self.known = load_known()
 
+    def corpus_cases(self):
+        """minimised past failures / witnesses of this property; they run first"""
+        d = os.path.join(ROOT, "corpus", self.pid)
+        out = []
+        if os.path.isdir(d):
+            for fn in sorted(os.listdir(d)):
+                if fn.endswith(".json"):
+                    with open(os.path.join(d, fn)) as f:
+                        c = json.load(f)["case"]
+                    c = dict(c)
+                    c["corpus"] = fn
+                    out.append(c)
+        self.dist["corpus_cases"] = len(out)
+        return out
+
     # ------------------------------------------------------------------ counters
     def count(self, key, n=1):
         self.dist[key] = self.dist.get(key, 0) + n
@@ -112,12 +142,10 @@ class Check:
             return
         # forbidden tokens in the sources this property depends on (the whole library is small: scan all)
         bad = []
-        for dp, _, fs in os.walk(os.path.join(LEAN, "ForsysModel")):
-            for fn in fs:
-                if fn.endswith(".lean"):
-                    src = _strip_comments(open(os.path.join(dp, fn)).read())
-                    for m in FORBIDDEN.finditer(src):
-                        bad.append(f"{fn}: {m.group(0).strip()}")
+        for path in sorted(_closure([module] if module else [])):
+            src = _strip_comments(open(path).read())
+            for m in FORBIDDEN.finditer(src):
+                bad.append(f"{os.path.relpath(path, LEAN)}: {m.group(0).strip()}")
         if bad:
             self.proof_problems.append({"what": "forbidden tokens", "hits": bad})
         if not theorems:
